@@ -118,7 +118,7 @@ def gen_system(rng, family):
     S = {"family": family, "solutions": [], "blocks": [], "use": [], "rates": None}
     rb = family != "speciation"
     if family == "mix":
-        ns = rng.randint(2, 3)
+        ns = rng.choice([2, 3, 3])
         nums = rng.sample(range(1, 9), ns)
         temps = rng.sample([10.0, 25.0, 40.0, 60.0, 80.0], ns)
         waters = rng.sample([0.1, 0.5, 1.0, 1.25, 2.0, 4.0], ns)
@@ -782,11 +782,17 @@ def run(ctx):
     if not ok:
         npairs *= 2          # a proof obligation failed: search harder for a concrete failing input
     plan = []
+    # every (family, applicable transformation) combination at least twice, then random combinations
+    cover = [(fam, t) for fam in FAMILIES for t in TRANSFORMS if applicable(fam, t)] * 2
     for i in range(npairs):
-        fam = FAMILIES[i % len(FAMILIES)] if i < 4 * len(FAMILIES) else rng.choice(FAMILIES)
-        ts = [t for t in TRANSFORMS if applicable(fam, t)]
-        t = ts[(i // len(FAMILIES)) % len(ts)] if i < 6 * len(FAMILIES) else rng.choice(ts)
+        if i < len(cover):
+            fam, t = cover[i]
+        else:
+            fam = rng.choice(FAMILIES + ["mix"])
+            t = rng.choice([t for t in TRANSFORMS if applicable(fam, t)])
         S = gen_system(rng, fam)
+        if t == "mixassoc" and len(S["solutions"]) < 3:
+            t = "rebatch"
         V = make_variant(rng, S, t)
         plan.append((fam, t, S, V))
     jobs, descs = [], []
